@@ -265,7 +265,13 @@ pub fn suite_faults(ctx: &Ctx, thorough: bool) {
             // structure
             let after_type = good.find(&format!("{}/", if sp.type_upper { t.ty.to_ascii_uppercase() } else { t.ty.to_string() })).unwrap();
             let ty_len = t.ty.len();
-            let tail_from = good[after_type..].find(|c| c == '?' || c == '#').map(|x| x + after_type).unwrap_or(good.len());
+            // the DESIGNATED separators (right-to-left): the last '#' if there is a subpath, the last '?' before it if there are qualifiers
+            let has_sub = !t.sub.is_empty();
+            let has_quals = !t.quals.is_empty();
+            let hash = if has_sub { good.rfind('#') } else { None };
+            let upto = hash.unwrap_or(good.len());
+            let qmark = if has_quals { good[..upto].rfind('?') } else { None };
+            let tail_from = qmark.or(hash).unwrap_or(good.len());
             // no type at all: keep qualifiers / subpath
             cases.push((format!("pkg:{}", &good[tail_from..]), ErrKind::MissingType, "no type"));
             // no name: type only
@@ -275,18 +281,8 @@ pub fn suite_faults(ctx: &Ctx, thorough: bool) {
                 cases.push((format!("{}{}{}", &good[..after_type], bad, &good[after_type + ty_len..]), ErrKind::InvalidType, "invalid type"));
             }
             // qualifier faults
-            let q_at = good.find('?');
             let add_q = |q: &str| -> String {
-                match q_at {
-                    Some(_) => {
-                        let end = good.rfind('#').filter(|h| *h > q_at.unwrap()).unwrap_or(good.len());
-                        format!("{}&{}{}", &good[..end], q, &good[end..])
-                    },
-                    None => {
-                        let end = good.rfind('#').unwrap_or(good.len());
-                        format!("{}?{}{}", &good[..end], q, &good[end..])
-                    },
-                }
+                if has_quals { format!("{}&{}{}", &good[..upto], q, &good[upto..]) } else { format!("{}?{}{}", &good[..upto], q, &good[upto..]) }
             };
             for q in ["novalue", "=v", "k!=v", "%6B=v", "k%20=v", "é=v", "q1=a&Q1=b", "q1=a&q1=a"] {
                 cases.push((add_q(q), ErrKind::InvalidQualifier, "qualifier fault"));
